@@ -11,9 +11,10 @@ Families (each a complete product or a complete stated schedule; decoded from a 
   n1, n2    1 and 2 moving joints: FULL product of per-joint variants {origin: full, no rpy, no xyz, omitted} x
             {axis: x, z, -z, generic unit, omitted} x {revolute with limits, continuous} (40 per joint) x fixed joint
             present/absent before, between, after (2^(n+1)) x {world link, none} x {inertial data, none}
-  sched     n = 3..8 moving joints: variants by a rotating schedule (joint k gets variant (s + 7k) mod 40, every
-            offset s = 0..39, so every variant is met at every position) x every fixed-joint placement pattern that
-            uses <= 2 of the n+1 slots with 1 or 2 fixed joints in each (0..4 fixed joints) x world x inertial
+  sched     n = 3..8 moving joints: variants by a rotating schedule (joint k gets variant (s + 7k) mod 40; thorough:
+            every offset s = 0..39, so every variant is met at every position; quick: s = 0, 5, .., 35) x every
+            fixed-joint placement pattern that uses <= 2 of the n+1 slots with 1 or 2 fixed joints in each (0..4 fixed
+            joints) x world x inertial
   halfturn  the hand-typed half-turn spellings "3.14159265359", "3.1416", "3.14159" in each rpy component, on the
             first / second moving joint or a leading fixed joint, x axis {x, z, generic} x world x companion yaw
   contlim   continuous joints that carry <limit effort=.. velocity=../> (no lower/upper: valid URDF), n = 1, 2
@@ -23,9 +24,11 @@ product; they rotate through fixed palettes keyed on the running index, so every
 somewhere.  VERIF_SEED adds ONE generic element to the rpy, xyz and generic-axis palettes.
 
 KF1: the loader rotates each joint axis into the space frame through the rotation *vector* of the accumulated joint
-frame (MatrixLog3).  When that frame's rotation angle is within 3e-5 of pi the axis is inexact and FK is off by
-~1e-5.  Such fk_vs_file violations carry quantities.pi_minus_angle = pi - angle of the accumulated origin frame of
-the offending joint (the joint whose screw deviates most from the file's), which the committed KF1 entry matches.
+frame (MatrixLog3).  When that frame's rotation angle is within 3e-5 of pi (and not in the exact-pi branch, i.e. more
+than 1e-8 away) the angle of that vector is inexact and FK is off by ~1e-5.  An fk_vs_file violation carries
+quantities.pi_minus_angle (= pi - angle of the accumulated origin frame of the joint whose loaded screw deviates most
+from the file's) ONLY when every deviating screw shows exactly that signature (see attribute()); the committed KF1
+entry matches on it.  Everything else - including any other failure on the same files - is a plain violation.
 """
 import contextlib
 import hashlib
@@ -63,6 +66,8 @@ SPELLINGS = [HALF, "3.1416", "3.14159"]
 BUNDLED = ["tests/test_helpers/irb_2400.urdf", "tests/test_helpers/puma_560.urdf", "tests/test_helpers/ur5.urdf",
            "tests/test_helpers/ur_description/ur10.urdf", "tests/test_helpers/ur_description/ur5.urdf"]
 SCHED_N = (3, 4, 5, 6, 7, 8)
+QUICK_OFFSETS = (0, 5, 10, 15, 20, 25, 30, 35)
+LOG_BAND = (1e-8, 3e-5)   # pi - angle where MatrixLog3 takes its arccos branch and is inexact (below: the exact pi branch)
 
 
 # ---------------------------------------------------------------------------------------------- palettes / seed
@@ -208,9 +213,10 @@ _SCHED = {}
 
 
 def sched_table(tier):
-    """[(n, s, pattern)] in enumeration order.  quick: offsets s in {0, 13, 26} only; thorough: all 40."""
+    """[(n, s, pattern)] in enumeration order.  quick: offsets s in {0, 5, .., 35} (every origin kind, axis kind and
+    type still occurs for every n, all 40 variants over the family - asserted by the self-test); thorough: all 40."""
     if tier not in _SCHED:
-        offs = range(NVAR) if tier == "thorough" else (0, 13, 26)
+        offs = range(NVAR) if tier == "thorough" else QUICK_OFFSETS
         _SCHED[tier] = [(n, s, pat) for n in SCHED_N for s in offs for pat in slot_patterns(n)]
     return _SCHED[tier]
 
@@ -323,25 +329,51 @@ def frame_angles(model):
 
 
 def attribute(arm, model):
-    """Which joint's screw deviates most from the file's (space-frame axis w = R a, v = q x w)?  Diagnostic only:
-    returns {"pi_minus_angle": pi - rotation angle of that joint's accumulated origin frame, ...} or {}."""
+    """Classification aid for an fk_vs_file violation (the verdict never depends on it): which joints' loaded screws
+    deviate from the file's (space-frame axis w = R a, v = q x w), and is the deviation the signature of KF1?
+
+    KF1 reaches the loader only through determineAxis: the accumulated joint frame R is turned into a rotation vector
+    (MatrixLog3) and back; within LOG_BAND of a half turn the *angle* of that vector is inexact, its direction is not.
+    So the loaded axis is Rot(n, eps) w for the frame's own rotation axis n: unit length, same component along n, and
+    v is still q x (loaded axis).  Only when EVERY deviating joint shows exactly that, in that band, is
+    pi_minus_angle (of the worst joint's accumulated origin frame) reported, which is what the KF1 entry matches."""
     try:
         S = np.asarray(arm.screw_list, float)
     except Exception:
         return {}
     frames = model.joint_frames_home()
-    if S.shape != (6, len(frames)):
+    if S.shape != (6, len(frames)) or not np.all(np.isfinite(S)):
         return {}
-    dev = []
+    dev, explained = [], []
     for i, (F, j) in enumerate(zip(frames, model.moving)):
         a = np.asarray(j.axis, float)
-        w = F[:3, :3] @ (a / np.linalg.norm(a))
-        ref = np.concatenate([w, np.cross(F[:3, 3], w)])
-        dev.append(float(np.abs(S[:, i] - ref).max() / max(1.0, np.linalg.norm(F[:3, 3]))))
-    i = int(np.argmax(dev))
-    if not dev[i] > 1e-8:
+        R, q = F[:3, :3], F[:3, 3]
+        w = R @ (a / np.linalg.norm(a))
+        ref = np.concatenate([w, np.cross(q, w)])
+        scale = max(1.0, np.linalg.norm(q))
+        d = float(np.abs(S[:, i] - ref).max() / scale)
+        dev.append(d)
+        if d > 1e-8:
+            deficit = PI - US.rotation_angle(R)
+            wl = S[:3, i]
+            ok = LOG_BAND[0] < deficit < LOG_BAND[1]
+            if ok:
+                B = 0.5 * (R + R.T)                      # = n n^T - (1 - n n^T) + O(deficit^2) near a half turn
+                k = int(np.argmax(np.diag(B)))
+                n = (B[:, k] + np.eye(3)[k]) / math.sqrt(2.0 * (B[k, k] + 1.0))
+                ok = (abs(float(n @ (wl - w))) <= 1e-7 and abs(np.linalg.norm(wl) - 1.0) <= 1e-9
+                      and np.abs(S[3:, i] - np.cross(q, wl)).max() / scale <= 1e-9)
+            explained.append(ok)
+    if not explained:
         return {}
-    return {"pi_minus_angle": PI - US.rotation_angle(frames[i][:3, :3]), "offending_joint": i, "screw_deviation": dev[i]}
+    i = int(np.argmax(dev))
+    out = {"offending_joint": i, "screw_deviation": dev[i], "deviating_joints": len(explained)}
+    deficit = PI - US.rotation_angle(frames[i][:3, :3])
+    if all(explained):
+        out["pi_minus_angle"] = deficit
+    else:
+        out["pi_minus_angle_not_explaining"] = deficit
+    return out
 
 
 def evaluate(path, expect_dof=None):
@@ -351,7 +383,7 @@ def evaluate(path, expect_dof=None):
     if expect_dof is not None and model.num_dof != expect_dof:
         raise RuntimeError("generator/oracle disagreement: %d moving joints generated, oracle reads %d" % (expect_dof, model.num_dof))
     angles = frame_angles(model)
-    info = {"in_kf1_band": any(0.0 < PI - a < 3e-5 for a in angles), "fk_err": None}
+    info = {"in_kf1_band": any(LOG_BAND[0] < PI - a < LOG_BAND[1] for a in angles), "fk_err": None}
     out = []
     try:
         with contextlib.redirect_stdout(io.StringIO()):
@@ -452,8 +484,9 @@ def work(p):
                 stored = {k: v for k, v in case.items() if k != "n_moving"}
                 acc.violation(f["clause"], stored, f["observed"], TOL if f["clause"] == "fk_vs_file" else None,
                               f.get("quantities"))
-            if idx % 997 == 0 and not found:
-                acc.sample({"family": fam, "idx": idx, "what": case.get("label", case.get("path")), "fk_scaled_error": info["fk_err"]})
+            if idx % 997 == 0 or idx == p["lo"]:
+                acc.sample({"family": fam, "idx": idx, "what": case.get("label", case.get("path")),
+                            "fk_scaled_error": info["fk_err"], "flagged": [f["clause"] for f in found]})
     finally:
         shutil.rmtree(tmp, ignore_errors=True)
     return acc.result()
@@ -487,7 +520,7 @@ def run(ctx):
     except OSError:
         pass
     P = pal(ctx.seed)
-    sched_rule = ("every offset s=0..39" if ctx.tier == "thorough" else "offsets s in {0,13,26}")
+    sched_rule = ("every offset s=0..39" if ctx.tier == "thorough" else "offsets s in {0,5,..,35}")
     lattice.fill(ctx, parts,
                  "programs = URDF files, each loaded by loadArmFromURDF and interpreted by the independent oracle; "
                  "bundled: the 5 files under tests/; n1, n2: the FULL product (40 per-joint variants)^n x 2^(n+1) fixed-joint "
